@@ -101,8 +101,44 @@ def shared_module_output(ctx: Ctx) -> None:
                     return
 
 
+def stepping_by_hand(ctx: Ctx) -> None:
+    """The documented way to evaluate a hedger one step at a time by hand - model(hedger.get_input(derivative, i)) for i = 0..T-2 -
+    gives the columns of compute_hedge(): on first use, after a new simulation, after the contract was re-struck and after
+    hedger.inputs was replaced by another feature list of the same width."""
+    from pfhedge.features import FeatureList
+    from pfhedge.instruments import BrownianStock, EuropeanOption
+    from pfhedge.nn import Hedger
+    dtype = torch.float64
+    torch.manual_seed(ctx.seed + 8)
+    model = torch.nn.Sequential(torch.nn.Linear(2, 3, dtype=dtype), torch.nn.Tanh(), torch.nn.Linear(3, 1, dtype=dtype))
+    hedger = Hedger(model, ["log_moneyness", "time_to_maturity"])
+    d = EuropeanOption(BrownianStock(dt=0.25, dtype=dtype), maturity=1.0)
+    d.simulate(n_paths=3)
+    steps = [("first use", lambda: None), ("a new simulation", lambda: d.simulate(n_paths=3)), ("the contract re-struck", lambda: setattr(d, "strike", 1.25)),
+             ("inputs replaced by others of the same width", lambda: setattr(hedger, "inputs", FeatureList(["moneyness", "volatility"]))),
+             ("a new simulation with another number of paths", lambda: d.simulate(n_paths=2))]
+    for label, act in steps:
+        act()
+        with torch.no_grad():
+            whole = hedger.compute_hedge(d)                                    # (N, 1, T)
+            T = whole.size(-1)
+            try:
+                by_hand = torch.cat([model(hedger.get_input(d, i)) for i in range(T - 1)], dim=-2).transpose(-1, -2)
+                all_in = hedger.get_input(d, None)
+            except Exception as e:
+                ctx.violation("stepping-by-hand:raises", f"hedger.get_input raised {type(e).__name__} ({label})", {"error": repr(e)[:200]})
+                continue
+        ctx.count(("stepping-by-hand", label), n=T - 1)
+        if by_hand.shape != whole[..., :-1].shape or not bool(((by_hand - whole[..., :-1]).abs() <= 1e-12).all()):
+            ctx.violation("stepping-by-hand", f"model(hedger.get_input(derivative, i)) is not column i of compute_hedge() ({label})",
+                          {"step": label, "by_hand": by_hand.flatten().tolist()[:8], "compute_hedge": whole[..., :-1].flatten().tolist()[:8]})
+        elif tuple(all_in.shape) != (whole.size(0), T, 2):
+            ctx.violation("stepping-by-hand:shape", f"hedger.get_input(derivative, None) has shape {tuple(all_in.shape)} ({label})", {})
+
+
 def check(ctx: Ctx) -> None:
     hedge_common.replay_hedger(ctx, focus="C03")
+    stepping_by_hand(ctx)
     inplace_first_operation(ctx)
     shared_module_output(ctx)
     hedge_common.c03_selftest(ctx)
